@@ -5,6 +5,8 @@
                                     environment), fillTransactions, commitTransactions,
                                     commitTransaction, commitBlobTransaction,
                                     applyTransaction, txFitsSize, signalToErr
+     /repo/miner/worker.go          prepareWork: header.ExcessBlobGas (via C35's transcription
+                                    Gas/FeesImpl.v of eip4844.CalcExcessBlobGas)
      /repo/core/state_processor.go  Process (sequential), ApplyTransaction
      /repo/core/state_transition.go preCheck / settleGas AS SEEN BY THE BLOCK GAS POOL
      /repo/core/block_validator.go  ValidateBody (blob gas), ValidateState
@@ -35,6 +37,7 @@
    addition is written [mod 2^64]); counters and identities are [N]. *)
 From Coq Require Import List NArith ZArith Bool.
 From GV Require Import Gas.GoArith Gas.Pool_gen Pool.Ordering.
+From GV Require Gas.FeesImpl.
 Import ListNotations.
 
 (* params *)
@@ -338,9 +341,31 @@ Section Build.
   Variable requests_hash : Q -> H.                  (* CalcRequestsHash *)
   Variable H_eqb : H -> H -> bool.
 
+  (* prepareWork's EIP-4844 header fields.  CalcExcessBlobGas is the C35 transcription
+     Gas/FeesImpl.v [calc_excess_blob_gas]; it depends on the fork / blob schedule in force
+     at the timestamp it is given. *)
+  Variable ccfg : FeesImpl.chain_config.     (* fork times and blob schedule *)
+  Variable parent_hdr : FeesImpl.header.     (* the parent: base fee, excess blob gas, blob gas used *)
+  Variable parent_cancun : bool.             (* chainConfig.IsCancun(parent.Number, parent.Time) *)
+  Variable head_time : Z.                    (* [timestamp]: the NEW block's time *)
+
+  (* worker.go:328  "if IsCancun(header) { var excessBlobGas uint64; if IsCancun(parent) {
+     excessBlobGas = eip4844.CalcExcessBlobGas(chainConfig, parent, timestamp) } ... }"
+     None = the Go code panics; Some None = header.ExcessBlobGas stays nil *)
+  Definition prepare_excess : option (option Z) :=
+    if c_cancun cfg then
+      if parent_cancun then
+        match FeesImpl.calc_excess_blob_gas ccfg parent_hdr head_time with
+        | FeesImpl.Ok e => Some (Some e)
+        | _ => None
+        end
+      else Some (Some 0%Z)
+    else Some None.
+
   Record header := mkHeader {
     h_gaslimit : Z; h_gasused : Z; h_blobgasused : N;
-    h_root : H; h_receipts : H; h_bloom : H; h_requests : H; h_balhash : H }.
+    h_root : H; h_receipts : H; h_bloom : H; h_requests : H; h_balhash : H;
+    h_time : Z; h_excessblobgas : option Z }.
 
   Record block := mkBlock { b_header : header; b_txs : list tx }.
 
@@ -350,14 +375,15 @@ Section Build.
     mkEnv (pre_exec parent) (NewGasPool (c_gaslimit cfg)) 0 size0 0 [] [] 0 0 [].
 
   (* generateWork after fillTransactions: PostExecution, Finalize, AssembleBlock *)
-  Definition assemble (env : benv) : option block :=
+  Definition assemble (env : benv) (excess : option Z) : option block :=
     match post_exec (e_state env) (e_receipts env) with
     | None => None
     | Some (s1, q) =>
         let s2 := finalize s1 in
         Some (mkBlock (mkHeader (c_gaslimit cfg) (e_gasused env) (e_blobgasused env)
                                 (root_of s2) (receipts_root (e_receipts env))
-                                (bloom_of (e_receipts env)) (requests_hash q) (bal_hash_of s2))
+                                (bloom_of (e_receipts env)) (requests_hash q) (bal_hash_of s2)
+                                head_time excess)
                       (e_txs env))
     end.
 
@@ -366,13 +392,17 @@ Section Build.
 
   Definition generate_work (sigs1 sigs2 prio : list N) (parent : S) (size0 : N)
              (pend_plain pend_blob : amap) : gw_res :=
-    match fill_transactions sigs1 sigs2 prio (make_env parent size0) pend_plain pend_blob with
-    | Panic => GwPanic
-    | OutOfFuel => GwOutOfFuel
-    | Ok (env, tr1, tr2) =>
-        match assemble env with
-        | None => GwPostExecError
-        | Some b => GwBlock b env tr1 tr2
+    match prepare_excess with
+    | None => GwPanic
+    | Some excess =>
+        match fill_transactions sigs1 sigs2 prio (make_env parent size0) pend_plain pend_blob with
+        | Panic => GwPanic
+        | OutOfFuel => GwOutOfFuel
+        | Ok (env, tr1, tr2) =>
+            match assemble env excess with
+            | None => GwPostExecError
+            | Some b => GwBlock b env tr1 tr2
+            end
         end
     end.
 
@@ -409,8 +439,19 @@ Section Build.
 
   (* VerifyEIP4844Header + ValidateBody on blob gas, Process, ValidateState.
      [proto_max] = the protocol's blob maximum at the block's time. *)
+  (* VerifyEIP4844Header: "expectedExcessBlobGas := CalcExcessBlobGas(config, parent,
+     header.Time); if *header.ExcessBlobGas != expectedExcessBlobGas { error }" *)
+  Definition verify_excess (h : header) : bool :=
+    if c_cancun cfg then
+      match h_excessblobgas h, FeesImpl.calc_excess_blob_gas ccfg parent_hdr (h_time h) with
+      | Some e, FeesImpl.Ok e' => (e =? e')%Z
+      | _, _ => false
+      end
+    else true.
+
   Definition validate (proto_max : N) (parent : S) (b : block) : bool :=
     let h := b_header b in
+    verify_excess h &&
     (h_blobgasused h <=? proto_max * BlobTxBlobGasPerBlob)%N &&
     (h_blobgasused h mod BlobTxBlobGasPerBlob =? 0)%N &&
     (sum_blobgas (b_txs b) / BlobTxBlobGasPerBlob =? h_blobgasused h / BlobTxBlobGasPerBlob)%N &&
